@@ -467,5 +467,10 @@ M("r10-plugin-super-gets-empty-config", "C15", "C15.R18", "contrib/shorter_resul
 M("r10-benign-plugins-loop", "C15", None, PMF, "        self.plugins: List[Plugin] = [\n            cls(schema=schema, config_dict=config_dict or {})\n            for cls in plugins_types or []\n        ]\n",
   "        self.plugins: List[Plugin] = []\n        for cls in plugins_types or []:\n            self.plugins.append(cls(schema=schema, config_dict=config_dict or {}))\n")
 M("r10-benign-plugins-positional", "C15", None, PMF, "cls(schema=schema, config_dict=config_dict or {})", "cls(schema, config_dict or {})")
+RFF2 = "client_generators/result_fields.py"
+M("r10-fragments-definitions-and", "C01", "C04.R19", RFF2, "    root_type_def = cast(GraphQLAbstractType, root_type_def)\n    fragments_definitions = fragments_definitions or {}\n", "    root_type_def = cast(GraphQLAbstractType, root_type_def)\n    fragments_definitions = fragments_definitions and {}\n")
+M("r10-custom-scalars-arms-swapped", "C14", "C04.R19", CUF, "self.custom_scalars = custom_scalars if custom_scalars else {}", "self.custom_scalars = {} if custom_scalars else custom_scalars")
+M("r10-benign-default-is-none", "C14", None, CUF, "self.custom_scalars = custom_scalars if custom_scalars else {}", "self.custom_scalars = {} if custom_scalars is None else custom_scalars")
+M("r10-benign-default-or", "C14", None, CUF, "self.custom_scalars = custom_scalars if custom_scalars else {}", "self.custom_scalars = custom_scalars or {}")
 
 from . import mutants_seeded  # noqa: F401,E402  (mutants generated from the confirmed seeded changes)
